@@ -460,6 +460,9 @@ func (g *Gen) genTx(w *World) []TxSpec {
 	case "nest":
 		return g.nestTx(w)
 	case "multi":
+		if g.pct(14) {
+			return []TxSpec{g.multiSignerTx(w)}
+		}
 		if g.pct(12) {
 			if ts, ok := g.multiPurchaseTx(w); ok {
 				return []TxSpec{ts}
@@ -1427,6 +1430,36 @@ func (g *Gen) groupTx(w *World) TxSpec {
 	}
 	w.Fault("group.proposal_exec")
 	ts := TxSpec{Signer: proposer, Gas: ampleGas * 2, Msgs: []MsgSpec{{T: "grp.submit", A: proposer, Id: k, N: 1, Inner: []MsgSpec{inner}}}}
+	g.setFee(w, &ts)
+	return ts
+}
+
+// multiSignerTx: one transaction carrying messages of two (sometimes three) different accounts,
+// signed by all of them; the first one named pays the fee. Whose locked eFUND, whose sequence,
+// whose entitlement is looked at must follow the message, not the position.
+func (g *Gen) multiSignerTx(w *World) TxSpec {
+	n := 2 + g.R.Intn(2)
+	var msgs []MsgSpec
+	seen := map[int]bool{}
+	for tries := 0; len(msgs) < n && tries < 30; tries++ {
+		var m MsgSpec
+		if g.pct(25) {
+			a := g.actor()
+			m = MsgSpec{T: "bank.send", A: a, B: g.otherActor(a), Amt: u64s(uint64(1 + g.R.Intn(1000))), Denom: Native}
+		} else {
+			m = g.customMsg(w)
+		}
+		if m.A < 0 || seen[m.A] {
+			continue
+		}
+		seen[m.A] = true
+		msgs = append(msgs, m)
+	}
+	if len(msgs) == 0 {
+		a := g.actor()
+		msgs = []MsgSpec{{T: "bank.send", A: a, B: g.otherActor(a), Amt: "1", Denom: Native}}
+	}
+	ts := TxSpec{Signer: msgs[0].A, Gas: ampleGas * 2, Msgs: msgs, Multi: true}
 	g.setFee(w, &ts)
 	return ts
 }
